@@ -136,7 +136,7 @@ PrepareViol(ev) ==
   \cup Chk("C08_NoRerunInFlow",
            (~ev.manual /\ id \notin env.trig.ids) =>
               ~\E c \in env.completedIn : c[1] = id /\ c[2] \cap t.flows # {} /\ ~h.retry)
-  \cup Chk("C28_EachMemberOnce", (id \in env.trig.ids /\ env.trig.dflt) => (env.trig.n[id] = 0 \/ h.retry))
+  \cup Chk("C28_EachMemberOnce", (id \in env.trig.ids /\ env.trig.dflt) => (env.trig.n[id] <= 0 \/ h.retry))
   \cup Chk("C28_InGroupOrder",
            \* (judged for triggers into the task's own flows, and for members without a live job at the time)
            (id \in env.trig.ids /\ ~ev.manual /\ env.trig.dflt /\ id \notin env.trig.live) =>
@@ -155,6 +155,8 @@ PrepareCov(ev) ==
   \cup Cov("C28_EachMemberOnce", id \in env.trig.ids)
   \cup Cov("C28_InGroupOrder", id \in env.trig.ids /\ ~ev.manual /\
              \E L \in Deps(W, nm, Pt(id)) : \E a \in Atoms(L.lhs) : <<a.t, AtomPoint(W, a, Pt(id))>> \in env.trig.ids)
+  \cup Cov("C28_InGroupOrder_StaleOutputOfRerunMember", id \in env.trig.ids /\ ~ev.manual /\ env.trig.dflt /\
+             \E L \in Deps(W, nm, Pt(id)) : \E a \in Atoms(L.lhs) : AtomKey(W, a, Pt(id)) \in env.trig.stale)
   \cup Cov("C08_NoRerunInFlow", \E c \in env.completedIn : c[1] = id)
   \cup Cov("C43_NoSubmitBeyondStopPoint", env.stop # NoPoint)
   \cup Cov("C46_NothingBeforeStart", W.start > W.icp)
@@ -276,6 +278,8 @@ LoopEndViol(ev) ==
   \cup Chk("C45_AllInstancesSatisfied",
            \A i \in SyncIds(ev) : \A L \in Deps(W, Name(i), Pt(i)) : \A a \in Atoms(L.lhs) :
               (a.abs /\ AtomKey(W, a, Pt(i)) \in done) => AtomKey(W, a, Pt(i)) \in SyncRec(ev, i).sat)
+  \* a stop point requested by command stays in effect (until the scheduler stops)
+  \cup Chk("C43_StopPointKept", env.cmdStop # NoPoint => ev.stop_point = env.cmdStop)
   \cup Chk("C11_RetainedOnlyIfIncomplete",
            ~Opt.manual => \A i \in SyncIds(ev) : SyncRec(ev, i).st \in FinalStatuses => ~Complete(W, Name(i), SyncRec(ev, i).outs))
   \cup Chk("C09_ImpliedOutputs",
@@ -284,6 +288,8 @@ LoopEndViol(ev) ==
 LoopEndCov(ev) ==
      {"C26_CacheIsTruth", "C26_NoEmptyBucket"}
   \cup Cov("C26_DbPoolMatches", ev.hasdb /\ ev.pool # <<>>)
+  \cup Cov("C43_StopPointKept", env.cmdStop # NoPoint)
+  \cup Cov("C43_StopPointKeptAcrossReload", env.cmdStop # NoPoint /\ env.cmdname = "reload_workflow")
   \cup Cov("C11_RetainedOnlyIfIncomplete", \E i \in SyncIds(ev) : SyncRec(ev, i).st \in FinalStatuses)
   \cup Cov("C45_AllInstancesSatisfied",
            \E i \in SyncIds(ev) : \E L \in Deps(W, Name(i), Pt(i)) : \E a \in Atoms(L.lhs) :
@@ -337,11 +343,14 @@ XtLoopCov(ev) == Cov("C33_AllDependentsSatisfied", env.xtOKold # {})
 
 \* commands
 AllAtomKeysT(t, p) == {AtomKey(W, a, p) : a \in UNION {Atoms(L.lhs) : L \in Deps(W, t, p)}}
+\* TaskProxy.match_flows for the flows given to the command ({} = all flows)
+CmdMatch(fs) == IF env.cmdflow = {} THEN fs ELSE {x \in fs : ToString(x) \in env.cmdflow}
 CmdDoneViol(ev) ==
   LET pre == env.cmdpre  ids == env.cmdids IN
   CASE env.cmdname = "remove_tasks" ->
           Chk("C30_FlowsRemoved",
               \A i \in ids \cap DOMAIN pre :
+                 \/ pre[i].flows = {}      \* a no-flow instance is in none of the flows being removed
                  \/ i \notin SyncIds(ev)
                  \/ (env.cmdflow # {} /\ SyncRec(ev, i).flows = pre[i].flows \ {x \in pre[i].flows : ToString(x) \in env.cmdflow}))
        \cup Chk("C30_OthersUnchanged",
@@ -349,6 +358,20 @@ CmdDoneViol(ev) ==
                  IF i \in SyncIds(ev) THEN SyncRec(ev, i).outs = pre[i].outs /\ SyncRec(ev, i).flows = pre[i].flows
                                              /\ SyncRec(ev, i).st = pre[i].st
                  ELSE pre[i].st = "waiting" /\ pre[i].sub = 0)
+       \* a prerequisite goes from satisfied to unsatisfied only if it is on a removed instance and was
+       \* not force-satisfied; nothing becomes satisfied
+       \cup Chk("C30_OnlyNaturalUnset",
+              \A c \in DOMAIN pre \cap SyncIds(ev) : LET r == SyncRec(ev, c) IN
+                 /\ (pre[c].sat \ r.sat) \subseteq ({k \in pre[c].sat : <<k[1], k[2]>> \in ids} \ pre[c].fsat)
+                 /\ r.sat \subseteq pre[c].sat)
+       \cup Chk("C30_NaturalUnset",
+              \A i \in ids : (i \notin DOMAIN pre \/ CmdMatch(pre[i].flows) # {}) =>
+                 \A c \in DOMAIN pre \cap SyncIds(ev) : CmdMatch(pre[c].flows) # {} =>
+                    \A k \in pre[c].sat \ pre[c].fsat : <<k[1], k[2]>> = i => k \notin SyncRec(ev, c).sat)
+       \cup Chk("C30_OrphansRemoved",
+              \A c \in (DOMAIN pre \cap SyncIds(ev)) \ ids : LET r == SyncRec(ev, c) IN
+                 ~(pre[c].sat # r.sat /\ r.sat = {} /\ Rank(r.st) < Rank("preparing")
+                   /\ CmdMatch(pre[c].flows) = pre[c].flows))
     [] env.cmdname = "set" ->
           Chk("C29_ChildrenAsNatural",
               \A k \in env.forcedSince : \A c \in Children(W, k[1], k[2], k[3]) :
@@ -382,9 +405,25 @@ ReloadQueuedViol(ev) ==
            \A i \in DOMAIN env.cmdpre : (i \in SyncIds(ev) /\ env.cmdpre[i].queued) => SyncRec(ev, i).queued)
 CmdDoneCov(ev) == Cov("C30_FlowsRemoved", env.cmdname = "remove_tasks" /\ env.cmdids \cap DOMAIN env.cmdpre # {})
   \cup Cov("C30_OthersUnchanged", env.cmdname = "remove_tasks" /\ DOMAIN env.cmdpre \ env.cmdids # {})
+  \cup Cov("C30_NaturalUnset", env.cmdname = "remove_tasks" /\
+            \E c \in DOMAIN env.cmdpre : \E k \in env.cmdpre[c].sat : <<k[1], k[2]>> \in env.cmdids)
+  \cup Cov("C30_OrphansRemoved", env.cmdname = "remove_tasks" /\
+            \E c \in DOMAIN env.cmdpre \ SyncIds(ev) : c \notin env.cmdids)
   \cup Cov("C29_ChildrenAsNatural", env.cmdname = "set" /\ env.forcedSince # {})
   \cup Cov("C29_NeverActive", env.cmdname = "set")
   \cup Cov("C27_ReloadProjection", env.cmdname = "reload_workflow" /\ DOMAIN env.cmdpre # {})
+
+\* the first database flush after a remove command (remove_task_from_flows queues its UPDATEs): the history
+\* rows of the removed instances no longer mention the removed flows.  Only judged when nothing else that
+\* writes rows for those instances (another command, a respawn) happened in between.
+RmMatch(fs) == IF env.rm.flow = {} THEN fs ELSE {x \in fs : ToString(x) \in env.rm.flow}
+RemoveFlushedViol(ev) ==
+  IF ~(env.rm.active /\ env.rm.ok) THEN {}
+  ELSE Chk("C30_HistoryErased", \A i \in env.rm.ids \cap DOMAIN ev.dbhist : \A fs \in ev.dbhist[i] : RmMatch(fs) = {})
+RemoveFlushedCov(ev) ==
+  Cov("C30_HistoryErased", env.rm.active /\ env.rm.ok /\ \E i \in env.rm.ids \cap DOMAIN ev.dbhist : ev.dbhist[i] # {})
+  \cup Cov("C30_HistoryErasedSeveralRows", env.rm.active /\ env.rm.ok /\
+            \E i \in env.rm.ids \cap DOMAIN ev.dbhist : Cardinality(ev.dbhist[i]) > 1)
 
 \* boot after a stop: what was restored from the database
 RestoredTask(b) == [st |-> IF b.st = "preparing" THEN "waiting" ELSE b.st,
@@ -550,7 +589,9 @@ Del(f, k) == [x \in DOMAIN f \ {k} |-> f[x]]
 NextPool(ev) ==
   CASE ev.e = "spawn" -> Upd(pool, ev.t.id, ev.t)
     [] ev.e = "remove" -> Del(pool, ev.t.id)
-    [] ev.e \in {"state", "msg"} -> IF ev.t.id \in DOMAIN pool THEN Upd(pool, ev.t.id, ev.t) ELSE pool
+    [] ev.e = "state" -> IF ev.t.id \in DOMAIN pool THEN Upd(pool, ev.t.id, ev.t) ELSE pool
+    \* (a message for a proxy that has left the pool - e.g. replaced by a trigger - does not touch its successor)
+    [] ev.e = "msg" -> IF ev.t.id \in DOMAIN pool /\ ev.inpool THEN Upd(pool, ev.t.id, ev.t) ELSE pool
     [] ev.e = "prepare" -> IF ev.t.id \in DOMAIN pool THEN Upd(pool, ev.t.id, ev.t) ELSE pool
     [] ev.e = "merge" -> IF ev.id \in DOMAIN pool /\ ev.inpool THEN [pool EXCEPT ![ev.id].flows = ev.after] ELSE pool
     [] ev.e \in {"loop_end", "boot", "restored", "cmd_done"} -> [i \in SyncIds(ev) |-> SyncRec(ev, i)]   \* re-synchronise
@@ -595,24 +636,45 @@ NextEnv(ev) ==
                                                     ELSE @,
                                       !.xtEverOK = IF ev.ok THEN @ \cup {ev.sig} ELSE @,
                                       !.xtLastOK = IF ev.ok THEN @ \cup {ev.sig} ELSE @ \ {ev.sig}]
-    [] ev.e = "spawn" -> [env EXCEPT !.spawnedSinceBoot = @ \cup {ev.t.id}, !.flowsEver = @ \cup ev.t.flows]
+    [] ev.e = "spawn" -> [env EXCEPT !.spawnedSinceBoot = @ \cup {ev.t.id}, !.flowsEver = @ \cup ev.t.flows,
+                                     !.rm = IF ev.t.id \in @.ids THEN [@ EXCEPT !.ok = FALSE] ELSE @]
+    [] ev.e = "remove_flushed" -> [env EXCEPT !.rm = [@ EXCEPT !.active = FALSE]]
     [] ev.e = "flow" -> [env EXCEPT !.flowsEver = @ \cup {ev.got} \cup ev.known]
     [] ev.e = "cmd" ->
-         [env EXCEPT !.cmdpre = pool, !.cmdname = ev.name, !.cmdids = ev.ids, !.cmdflow = ev.flow, !.forcedSince = {},
+         [env EXCEPT !.cmdStop = IF ev.name = "stop" /\ ev.stopcp # NoPoint /\ ev.stopcp <= W.fcp /\ ev.stopcp >= W.icp
+                                  THEN ev.stopcp ELSE @,
+                     !.rm = IF ev.name = "remove_tasks"
+                            THEN [active |-> TRUE, ok |-> ~@.active, ids |-> ev.ids, flow |-> ev.flow]
+                            ELSE [@ EXCEPT !.ok = FALSE],
+                     !.cmdpre = pool, !.cmdname = ev.name, !.cmdids = ev.ids, !.cmdflow = ev.flow, !.forcedSince = {},
                      !.trig = IF ev.name = "force_trigger_tasks"
-                              THEN [ids |-> ev.ids, done |-> {}, n |-> [i \in ev.ids |-> 0], dflt |-> ev.flow = {},
-                                    live |-> {i \in ev.ids \cap DOMAIN pool : pool[i].st \in ActiveStatuses}] ELSE @,
+                              THEN LET real == {i \in ev.ids : ValidPoint(W, Name(i), Pt(i)) /\ InBounds(W, Pt(i))} IN
+                                   \* (ids that name no instance of the graph match nothing)
+                                   \* n = runs since the trigger; a member triggered again before it ran keeps the unused run
+                                   [ids |-> real, done |-> {}, ran |-> {},
+                                    n |-> [i \in real |-> IF i \in DOMAIN @.n /\ @.n[i] <= 0 THEN @.n[i] - 1 ELSE 0],
+                                    dflt |-> ev.flow = {},
+                                    live |-> {i \in real \cap DOMAIN pool : pool[i].st \in ActiveStatuses},
+                                    \* outputs of earlier jobs of members that will be re-run
+                                    stale |-> UNION {{<<Name(i), Pt(i), o>> : o \in pool[i].outs} :
+                                                       i \in {j \in real \cap DOMAIN pool : pool[j].st \notin ActiveStatuses}}]
+                              ELSE @,
                      !.completedIn = IF ev.name \in {"remove_tasks", "force_trigger_tasks", "set"}
                                      THEN {c \in @ : c[1] \notin ev.ids} ELSE @]
     [] ev.e = "remove" /\ ev.reason = "completed" -> [env EXCEPT !.completedIn = @ \cup {<<ev.t.id, ev.t.flows>>}]
     [] ev.e = "prepare" /\ ev.t.id \in env.trig.ids ->
-         [env EXCEPT !.trig.n = [@ EXCEPT ![ev.t.id] = @ + 1]]
+         [env EXCEPT !.trig.n = [@ EXCEPT ![ev.t.id] = @ + 1], !.trig.ran = @ \cup {ev.t.id}]
     [] ev.e = "msg" ->
          [env EXCEPT !.tainted = IF ev.flag = "received" /\ ev.inpool /\ ~ev.forced /\ ev.b.st = "waiting"
                                      /\ ev.b.etry = 0 /\ ev.b.stry = 0
                                      /\ <<ev.t.id, ev.sub, ev.msg>> \in env.seenMsgs /\ ev.t.st # ev.b.st
                                   THEN @ \cup {ev.t.id} ELSE @,
-                     !.trig.done = @ \cup {<<Name(ev.t.id), Pt(ev.t.id), o>> : o \in ev.t.outs \ ev.b.outs},
+                     \* outputs completed since the trigger; an output that an earlier job of a re-run member had
+                     \* already completed counts again once the new job reports it
+                     !.trig.done = @ \cup {<<Name(ev.t.id), Pt(ev.t.id), o>> : o \in ev.t.outs \ ev.b.outs}
+                                     \cup (IF ev.t.id \in env.trig.ran /\ ev.sub = ev.t.sub
+                                              /\ ~ev.forced /\ ev.inpool /\ ev.msg \in ev.t.outs
+                                           THEN {<<Name(ev.t.id), Pt(ev.t.id), ev.msg>>} ELSE {}),
                      !.seenMsgs = IF ev.flag = "received" /\ "msg" \notin ev.cx
                                   THEN @ \cup {<<ev.t.id, ev.sub, ev.msg>>} ELSE @,
                      !.forcedSince = IF ev.forced THEN @ \cup {<<Name(ev.t.id), Pt(ev.t.id), o>> : o \in ev.t.outs \ ev.b.outs} ELSE @]
@@ -660,6 +722,8 @@ Violations(ev) ==
     [] ev.e = "ds_update" -> DsViol(ev)
     [] ev.e = "flow" -> FlowViol(ev)
     [] ev.e = "cmd_done" -> CmdDoneViol(ev) \cup ReloadQueuedViol(ev)
+    [] ev.e = "remove_flushed" -> RemoveFlushedViol(ev)
+                             \cup Chk("C43_StopPointKept", env.cmdStop # NoPoint => ev.stop_point = env.cmdStop)
     [] ev.e = "restored" -> RestoredViol(ev)
     [] ev.e = "env_launch" -> LaunchViol(ev)
     [] OTHER -> {}
@@ -683,6 +747,7 @@ Covered(ev) ==
     [] ev.e = "merge" -> Cov("C08_MergeIsUnion", ev.added # {} /\ ev.added # ev.before)
     [] ev.e = "flow" -> Cov("C08_NewFlowIsFresh", ev.asked = -1 /\ env.flowsEver # {})
     [] ev.e = "cmd_done" -> CmdDoneCov(ev)
+    [] ev.e = "remove_flushed" -> RemoveFlushedCov(ev)
     [] ev.e = "restored" -> RestoredCov(ev)
     [] ev.e = "env_launch" -> {"C20_NoDuplicateSubmitNum"} \cup Cov("C20_NoRerunInFlow", env.downkind = "crash")
     [] OTHER -> {}
@@ -695,7 +760,7 @@ Init == /\ tid \in DOMAIN Runs
         /\ hist = <<>>
         /\ env = [stop |-> NoPoint, tohold |-> {}, holdpt |-> NoPoint, restarted |-> FALSE, incomplete |-> FALSE,
                   prestop |-> <<>>, prescal |-> <<>>, downkind |-> "none", committed |-> {}, poolcommitted |-> FALSE, lostAtCrash |-> {}, earlyCrash |-> FALSE, hadStopTask |-> FALSE, hadDup |-> FALSE, committedAtCrash |-> {}, jobsSinceBoot |-> {}, spawnedSinceBoot |-> {}, jobs |-> {}, succeeded |-> {}, failedjobs |-> {}, tainted |-> {}, seenMsgs |-> {}, xtActive |-> {}, xtLast |-> <<>>, xtOK |-> {}, xtOKold |-> {}, xtEverOK |-> {}, xtLastOK |-> {}, xtNeeders |-> <<>>, flowsEver |-> {},
-                  trig |-> [ids |-> {}, done |-> {}, n |-> <<>>, dflt |-> FALSE, live |-> {}], cmdpre |-> <<>>, cmdname |-> "none", cmdids |-> {},
+                  trig |-> [ids |-> {}, done |-> {}, n |-> <<>>, dflt |-> FALSE, live |-> {}, stale |-> {}, ran |-> {}], cmdStop |-> NoPoint, rm |-> [active |-> FALSE, ok |-> FALSE, ids |-> {}, flow |-> {}], cmdpre |-> <<>>, cmdname |-> "none", cmdids |-> {},
                   cmdflow |-> {}, forcedSince |-> {}, completedIn |-> {}, flowctr |-> 0]
         /\ viol = {}
         /\ cov = {}
